@@ -583,6 +583,10 @@ for _pid in ("C01", "C18"):
     _add(_pid, "quick", H("ZZ_C01_PoolNoListener", params={"PRE": 0}, reach=["two-more-keys"], bounds=_pn), H("ZZ_C01_PoolNoListener", params={"PRE": 1}, reach=["two-more-keys"], bounds=_pn))
     _add(_pid, "thorough", H("ZZ_C01_PoolNoListener", params={"PRE": 2}, reach=["two-more-keys"], bounds=_pn), H("ZZ_C01_PoolNoListener", params={"PRE": 2, "POOLMODE": 2, "CAP": 6}, reach=["two-more-keys"], bounds="adversarial pool reuse, MaxSize 6; " + _pn))
 for _t in ("quick", "thorough"):
+    _add("C13", _t, H("ZZ_C13_FailedLoadCostFn", reach=["failed-load-returned"], bounds="cache with a cost function that is only defined on loaded values; failing loader, then a succeeding one"))
+for _t in ("quick", "thorough"):
+    _add("C07", _t, H("ZZ_C04_LateUpdate", reach=["three-ticks"], bounds="through the Store: a cost-changing TTL update applied 2^31 ns late; region sizes, policy total and resident cost agree afterwards"))
+for _t in ("quick", "thorough"):
     _add("C18", _t, H("ZZ_C01_Linearizable", params={"PRE": 0, "LOADING": 1}, reach=["history-complete"], bounds="loading cache with the happens-before monitor: a hit never reads the entry's value outside the shard lock (with the entry pool that read can yield another key's value)"))
 
 def main():
